@@ -499,7 +499,28 @@ func (g *c18G) anyE(d int) (string, byte) {
 	}
 }
 
+// printStmt prints through the core builtins or, now and then, through the
+// bundled fmt package (another route to the same standard output: the order of
+// what the script prints must not depend on the route)
 func (g *c18G) printStmt() string {
+	s := g.corePrintStmt()
+	if g.r.Intn(6) == 0 {
+		switch {
+		case strings.HasPrefix(s, "println("):
+			g.f("fmt.Println")
+			return "import(\"fmt\").Println(" + s[len("println("):]
+		case strings.HasPrefix(s, "print("):
+			g.f("fmt.Print")
+			return "import(\"fmt\").Print(" + s[len("print("):]
+		case strings.HasPrefix(s, "printf("):
+			g.f("fmt.Printf")
+			return "import(\"fmt\").Printf(" + s[len("printf("):]
+		}
+	}
+	return s
+}
+
+func (g *c18G) corePrintStmt() string {
 	switch g.r.Intn(10) {
 	case 0, 1, 2, 3, 4:
 		g.f("println")
